@@ -51,7 +51,36 @@ def module_level_calls(ctx, rel, is_entry):
     return out
 
 
-def r1_single_stdout_writer(ctx, rule, entry_rel=ENTRY):
+def _on_refusal_branch(fn, call):
+    """Is `call` a statement of a branch that ends by refusing to run (return False / sys.exit / raise)?  Such a write is not part
+    of a produced list: prince_ling.py reports '--size 0' this way and then exits without generating anything."""
+    def blocks(node):
+        for f in ('body', 'orelse', 'finalbody'):
+            b = getattr(node, f, None)
+            if isinstance(b, list) and b and isinstance(b[0], ast.stmt):
+                yield b
+                for st in b:
+                    yield from blocks(st)
+        for h in getattr(node, 'handlers', []) or []:
+            yield h.body
+            for st in h.body:
+                yield from blocks(st)
+    for b in blocks(fn):
+        if b is fn.body:
+            continue
+        for st in b:
+            if isinstance(st, ast.Expr) and st.value is call:
+                last = b[-1]
+                if isinstance(last, ast.Raise):
+                    return True
+                if isinstance(last, ast.Return) and isinstance(last.value, ast.Constant) and last.value.value is False:
+                    return True
+                if isinstance(last, ast.Expr) and isinstance(last.value, ast.Call) and U(last.value.func) in ('sys.exit', 'exit', 'quit', 'os._exit'):
+                    return True
+    return False
+
+
+def r1_single_stdout_writer(ctx, rule, entry_rel=ENTRY, refusals_allowed=False):
     q, fn, p, ok_calls = output_point(ctx)
     cg, closure, par = guesser_reach(ctx, entry_rel)
     nsites = 0
@@ -82,6 +111,8 @@ def r1_single_stdout_writer(ctx, rule, entry_rel=ENTRY):
             nsites += 1
             w = stdout_write(c)
             if w and id(c) not in designated:
+                if refusals_allowed and lname != '<module>' and _on_refusal_branch(ctx.repo.fn(qual), c):
+                    continue
                 bad = True
                 path = ' -> '.join(cg.path_to(par, qual))
                 ctx.bad(rule, qual, 'stdout write: ' + U(c)[:90],
